@@ -668,9 +668,8 @@ class ExprMixin:
                     acc = z3.Or(acc, to_bool_term(self.equal(item, container.at(k), path)))
                 return SBool(acc)
             from .ground import exists_witness
-            it_ = to_val(item)
             return SBool(exists_witness(path, container.length,
-                                        lambda j: to_val(container.at(SInt(j))) == it_, "in"))
+                                        lambda j: to_bool_term(self.equal(container.at(SInt(j)), item, path)), "in"))
         h = self.hooks.get("contains")
         if h is not None:
             return h(self, path, container, item)
